@@ -24,7 +24,9 @@ OUT = MessageDirection.OUTBOUND
 def build_out(I, kname, mtype, k=""):
     m = FIXMessage(mtype)
     if kname == "app":
-        m.set(11, I.str(f"clord{k}", 1, 2))
+        # printable ASCII plus a Latin-1 and a Cyrillic letter (framing of non-ASCII text is C02's subject;
+        # here: whatever the text, the number is allocated, sent and journaled - or nothing is)
+        m.set(11, I.str(f"clord{k}", 1, 2, 32, 126, [(0xE9, 0xE9), (0x416, 0x416)]))
     elif kname == "logon":
         m.set(98, 0)
         m.set(108, 30)
@@ -97,7 +99,12 @@ def h_send(I, states, digits, role):
         I.check(c._journaler.recover_messages(c._session, OUT, nout, nout) == [w.frames[0]],
                 "the exact bytes sent cannot be read back from the journal under their number")
         I.check(rows1 == rows0 + [w.frames[0]], "journal rows other than the new one changed")
-        check_frames_wellformed(I, w.frames)
+        ascii_only = True
+        for x in w.frames[0]:
+            if x >= 0x80:
+                ascii_only = False
+        if ascii_only:
+            check_frames_wellformed(I, w.frames)
     return [refused, int(c._connection_state), c._session.next_num_out, wire_summary(w.frames)]
 
 
